@@ -78,7 +78,26 @@ func (vc *VC) execInstr(fx *FuncCtx, in ssa.Instruction, st *State, fr *Frame) {
 	case *ssa.UnOp:
 		fr.regs[x] = vc.unop(fx, x, st, fr)
 	case *ssa.BinOp:
-		fr.regs[x] = vc.binop(st, x.Op, vc.val(fx, fr, x.X), vc.val(fx, fr, x.Y), x.X.Type(), x.Y.Type())
+		r := vc.binop(st, x.Op, vc.val(fx, fr, x.X), vc.val(fx, fr, x.Y), x.X.Type(), x.Y.Type())
+		fr.regs[x] = r
+		if vc.nooverflow && (x.Op == token.ADD || x.Op == token.SUB || x.Op == token.MUL) {
+			if rt, ok := r.(*Term); ok && rt.Sort.Kind == SInt && !rt.IsConst {
+				if b, isB := under(x.Type()).(*types.Basic); isB && b.Info()&types.IsInteger != 0 && b.Info()&types.IsUnsigned == 0 {
+					bits := 64
+					switch b.Kind() {
+					case types.Int32:
+						bits = 32
+					case types.Int16:
+						bits = 16
+					case types.Int8:
+						bits = 8
+					}
+					lo := new(big.Int).Neg(new(big.Int).Lsh(big.NewInt(1), uint(bits-1)))
+					hi := new(big.Int).Sub(new(big.Int).Lsh(big.NewInt(1), uint(bits-1)), big.NewInt(1))
+					vc.check(fx, st, And(Le(IntBig(lo), rt), Le(rt, IntBig(hi))), "integer overflow", x.Pos())
+				}
+			}
+		}
 	case *ssa.FieldAddr:
 		stt := x.X.Type().Underlying().(*types.Pointer).Elem()
 		p := asPtr(vc.val(fx, fr, x.X), stt)
